@@ -15,6 +15,11 @@ mod savepoint;
 #[cfg(redb_verif)]
 #[allow(clippy::pedantic, dead_code, missing_docs)]
 pub mod verif;
+// C02/C08 cache layer hook: drives the real PagedCachedFile over a caller-supplied backend
+#[cfg(all(redb_verif, not(redb_no_std)))]
+#[allow(clippy::pedantic, dead_code, missing_docs)]
+#[path = "verif/cached.rs"]
+pub mod verif_cached;
 #[allow(clippy::pedantic, dead_code)]
 mod xxh3;
 
